@@ -54,6 +54,7 @@ type c18Case struct {
 	Commit   []world.File `json:"commit"`
 	CommitOk bool         `json:"commitok"`
 	Crashed  string       `json:"crashed,omitempty"`
+	Inode    *c18Inode    `json:"inode,omitempty"` // a history of the inode generator instead of a program
 }
 
 type c18Kernel struct {
@@ -563,13 +564,69 @@ func c18Coq(cs *c18Case) string {
 		strings.Join(steps, ";\n "), strings.Join(cps, ";\n "), commit, cs.Crashed != "", strings.Join(orph, "; "))
 }
 
+// a history of the inode generator: -1 allocates, k >= 0 releases the k-th number in use (oldest first)
+type c18Inode struct {
+	Ops  []int    `json:"ops"`
+	Base uint64   `json:"base"`
+	Obs  []*uint64 `json:"obs"`
+}
+
+func c18InodeRun(h *c18Inode) {
+	g := dfuse.VerifNewINodeGenerator()
+	h.Base = uint64(g.Base())
+	h.Obs = nil
+	var live []fuseops.InodeID
+	for _, o := range h.Ops {
+		if o < 0 {
+			n := g.Alloc()
+			live = append(live, n)
+			v := uint64(n)
+			h.Obs = append(h.Obs, &v)
+			continue
+		}
+		if o >= len(live) {
+			h.Obs = append(h.Obs, nil)
+			continue
+		}
+		v := uint64(live[o])
+		g.Free(live[o])
+		live = append(live[:o:o], live[o+1:]...)
+		h.Obs = append(h.Obs, &v)
+	}
+}
+
+func c18InodeEmit(c *Ctx, h *c18Inode) {
+	ops := make([]string, len(h.Ops))
+	obs := make([]string, len(h.Ops))
+	frees := 0
+	for i, o := range h.Ops {
+		if o < 0 {
+			ops[i] = "IAlloc"
+		} else {
+			ops[i] = fmt.Sprintf("IFree %d%%nat", o)
+			frees++
+		}
+		if h.Obs[i] == nil {
+			obs[i] = "None"
+		} else {
+			obs[i] = fmt.Sprintf("Some %d%%N", *h.Obs[i])
+		}
+	}
+	key := ""
+	if frees >= 2 {
+		key = fmt.Sprint(h.Ops)
+	}
+	coq := fmt.Sprintf("ICase {| ic_base := %d%%N; ic_ops := [%s]; ic_obs := [%s] |}", h.Base, strings.Join(ops, "; "), strings.Join(obs, "; "))
+	c.Emit(&c18Case{Inode: h}, coq, key, fmt.Sprintf("inode-history ops=%d", len(h.Ops)/20*20), "mutable")
+}
+
 func init() {
 	props["C18"] = func(c *Ctx) {
-		c.Header = "From Coq Require Import List String NArith.\nFrom DM Require Import Model.Mount Model.MutFs Model.MutFsCheck.\nImport ListNotations.\nOpen Scope list_scope."
-		c.CaseTy = "ucase"
-		c.Report = "report"
+		c.Header = "From Coq Require Import List String NArith.\nFrom DM Require Import Model.Mount Model.MutFs Model.Inode Model.InodeCheck Model.MutFsCheck.\nImport ListNotations.\nOpen Scope list_scope."
+		c.CaseTy = "c18case"
+		c.Report = "report18"
 		c.PerFile = 5
-		c.Rule = "programs of 20..60 operations over the names a, b, c, d in directories up to three deep: create, mkdir (one in eight sent without the kernel's existence check, as when two callers race), write at offsets inside and past the end, truncate, rename (onto nothing, onto files, onto empty and non-empty directories), unlink, rmdir, lookup, read, readdir through buffers of 60..4096 bytes resumed at the returned offsets, forgets of cached leaf entries, and temporary files (created, unlinked while the kernel still holds the inode, written, read, forgotten); the harness resolves paths by lookups, keeps lookup counts and applies the checks the VFS makes before calling the file system; every 15 operations and at the end the whole tree is walked for inode numbers; finally the mount is committed and the bundle downloaded; non-trivial = program with at least one successful rename or unlink and a forget, distinct by operations"
+		c.Rule = "programs of 20..60 operations over the names a, b, c, d in directories up to three deep: create, mkdir (one in eight sent without the kernel's existence check, as when two callers race), write at offsets inside and past the end, truncate, rename (onto nothing, onto files, onto empty and non-empty directories), unlink, rmdir, lookup, read, readdir through buffers of 60..4096 bytes resumed at the returned offsets, forgets of cached leaf entries, and temporary files (created, unlinked while the kernel still holds the inode, written, read, forgotten); the harness resolves paths by lookups, keeps lookup counts and applies the checks the VFS makes before calling the file system; every 15 operations and at the end the whole tree is walked for inode numbers; finally the mount is committed and the bundle downloaded; separately, histories of 5..120 allocations and releases on the mount's inode number generator alone (releasing the newest, the oldest and arbitrary numbers in use); non-trivial = program with at least one successful rename or unlink and a forget, distinct by operations"
 		emit := func(cs *c18Case) {
 			key := ""
 			okMut, forgets := false, false
@@ -584,7 +641,7 @@ func init() {
 					key = key[:400]
 				}
 			}
-			c.Emit(cs, c18Coq(cs), key, fmt.Sprintf("ops=%d crashed=%v commit=%v", len(cs.Ops)/10*10, cs.Crashed != "", cs.CommitOk), "mutable")
+			c.Emit(cs, "UCase ("+c18Coq(cs)+")", key, fmt.Sprintf("ops=%d crashed=%v commit=%v", len(cs.Ops)/10*10, cs.Crashed != "", cs.CommitOk), "mutable")
 		}
 		r := c.Rng.Fork()
 		if len(c.Replay) > 0 {
@@ -592,6 +649,11 @@ func init() {
 				var cs c18Case
 				if err := json.Unmarshal(raw, &cs); err != nil {
 					panic(err)
+				}
+				if cs.Inode != nil {
+					c18InodeRun(cs.Inode)
+					c18InodeEmit(c, cs.Inode)
+					continue
 				}
 				c18Run(&cs, r)
 				emit(&cs)
@@ -601,6 +663,34 @@ func init() {
 		n := 20
 		if !c.Quick() {
 			n = 400
+		}
+		// histories of the inode number generator alone
+		for i := 0; i < 3*n; i++ {
+			h := &c18Inode{}
+			live := 0
+			bias := r.Range(2, 6) // out of 8: how often a step allocates
+			for j := 0; j < r.Range(5, 120); j++ {
+				if live == 0 || r.Intn(8) < bias {
+					h.Ops = append(h.Ops, -1)
+					live++
+					continue
+				}
+				k := r.Intn(live)
+				switch r.Intn(4) {
+				case 0:
+					k = live - 1 // the most recent number: often the highest one
+				case 1:
+					k = 0
+				}
+				if r.Chance(1, 30) {
+					k = live + r.Intn(3) // no such entry: ignored
+				} else {
+					live--
+				}
+				h.Ops = append(h.Ops, k)
+			}
+			c18InodeRun(h)
+			c18InodeEmit(c, h)
 		}
 		names := []string{"a", "b", "c", "d"}
 		path := func() string {
